@@ -11,6 +11,7 @@ META = {
     "level": "Decides the structural clauses: a failed download or unpack raises before anything touches the repository path; the new tree is unpacked into `.<repo>.update` and moved in by rename, the old tree moved to `.<repo>.old`; both staging dirs are reset before use so leftovers of a killed run cannot fail the renames; the ETag/Last-Modified files are updated only after the new tree is in place; an interrupted swap is repaired (old tree renamed back) before the repository directory can be (re)created. Reports as a known finding the swap window itself: between the two renames the repository path does not exist (a directory cannot be replaced by rename() in one step); the next sync repairs it. Does NOT decide HTTP behaviour.",
     "note": "",
 }
+META["technique"] += "; " + 'generic pack G on the anchored files (optional-flag shift, closures outliving a loop iteration, single-pass iterables consumed twice, %-templates built from data, in-place writes to class-level / memoised objects, generators mutating what they yielded, memo keys that are projections)'
 TAR = "pkgcore.sync.tar"
 HTTP = "pkgcore.sync.http"
 
